@@ -435,6 +435,19 @@ var mutators = []mutator{
 		h := c.height - c.bs.v.maturity + int32(a)
 		c.txs = append(c.txs, c.pay(1, 0, c.sp(c.cbAt(h))))
 	}},
+	// many small transactions, each spending the previous one inside the block: the transaction count crosses the
+	// one-byte compact-size limit (252 / 253 / 254 in total, coinbase included) and the merkle tree gets deep and odd
+	{"manytx", []int64{252, 253, 254}, always, func(c *cand, a int64) {
+		prev := c.txs[len(c.txs)-1] // T4: one OP_TRUE output
+		for int64(len(c.txs))+1 < a {
+			op := wire.OutPoint{Hash: prev.TxHash(), Index: 0}
+			v := prev.TxOut[0].Value
+			t := c.bs.b.mkTx(1, 0, []spend{{op: op, c: coin{amount: v, script: pkScriptOf(kTrue), k: kTrue}, seq: wire.MaxTxInSequenceNum}},
+				[]*wire.TxOut{txOut(v-1, kTrue)})
+			c.txs = append(c.txs, t)
+			prev = t
+		}
+	}},
 	// the same through an output that is NOT the first of its coinbase (the coinbase flag is per output)
 	{"maturity2", []int64{-1, 0, 1}, always, func(c *cand, a int64) {
 		h := c.height - c.bs.v.maturity + int32(a)
